@@ -57,7 +57,7 @@ def direct_calls(ctx, n_seq, cfgs):
 
     for cfg in cfgs:
         rnd = random.Random(ctx.rnd.random())
-        S = B.gen_market(rnd, ndays=3, n_stocks=2, with_future=True, opts={"kinds": ["CS", "ETF"], "p_delist": 0, "p_split": 0, "p_div": 0, "n_futures": 2, "p_expire": 0})
+        S = B.gen_market(rnd, ndays=3, n_stocks=2, with_future=True, opts={"kinds": ["CS", "ETF"], "p_delist": 0, "p_split": 0, "p_div": 0, "n_futures": 3, "p_expire": 0})
         # make sure one CS and one ETF exist
         S["stocks"][0]["type"] = "CS"
         S["stocks"][1]["type"] = "ETF"
@@ -111,7 +111,7 @@ def direct_calls(ctx, n_seq, cfgs):
                              [wv], {"value": v, "side": side.name}, None))
                 # futures
                 fut = rnd.choice(S["futures"])
-                info = fut["info"]
+                info = resolve_info(fut, cfg.get("future_info") or {})
                 fd = dec[INSTRUMENT_TYPE.FUTURE]
                 eff = rnd.choice([POSITION_EFFECT.OPEN, POSITION_EFFECT.CLOSE, POSITION_EFFECT.CLOSE_TODAY])
                 fq = rnd.choice([1, 2, 3, 5, 10, 37])
@@ -135,7 +135,8 @@ def direct_calls(ctx, n_seq, cfgs):
 
         res, exc = runner.run_real(S, dict(accounts={"stock": 1e6, "future": 1e6},
                                            cost={"stock_commission_multiplier": mult, "futures_commission_multiplier": cfg["fmult"],
-                                                 "cn_stock_min_commission": min_c, "tax_multiplier": tax_mult, "pit_tax": pit}),
+                                                 "cn_stock_min_commission": min_c, "tax_multiplier": tax_mult, "pit_tax": pit},
+                                           base_extra={"future_info": cfg["future_info"]} if cfg.get("future_info") else None),
                                    {"init": init})
         if exc is not None:
             raise RuntimeError("direct-call run failed: %r" % (exc,))
@@ -147,6 +148,16 @@ def direct_calls(ctx, n_seq, cfgs):
                 corr.add(ok, dict(case, request=line, impl=[float(g) for g in got], model=[b2f(w) for w in want] if not rep.startswith("ERR") else rep))
             if mon is not None:
                 monitor(ctx, cfg, mon)
+
+
+def resolve_info(fut, custom):
+    """the documented resolution: bundle default for the underlying, overridden by `base.future_info` keyed by the
+    contract or else by the underlying — for THIS contract only"""
+    info = dict(fut["info"])
+    ov = custom.get(fut["id"]) or custom.get(fut["under"])
+    if ov:
+        info.update(ov)
+    return info
 
 
 def monitor(ctx, cfg, mon):
@@ -220,9 +231,12 @@ def configs(ctx):
     change = int(c("stockPitTaxChangeDate", tables)) if c("stockPitTaxChangeDate", tables) == c("stockPitTaxChangeDate", tables) else 0
     out = []
     combos = [(1, 5, 1, False, 1), (1, 5, 1, True, 1), (0.5, 5, 2, False, 2.5), (2.5, 0, 1, True, 0.5), (1, 0.1, 0, False, 1), (0, 5, 1, False, 0)]
-    for mult, min_c, tax_mult, pit, fmult in combos:
+    overrides = [None, {"RB2010": {"close_commission_ratio": 0.00025, "close_commission_today_ratio": 0.0, "open_commission_ratio": 0.00005}},
+                 {"RB": {"commission_type": "by_volume", "open_commission_ratio": 1.5, "close_commission_ratio": 1.5, "close_commission_today_ratio": 3.0}},
+                 None, {"RB2101": {"open_commission_ratio": 0.0002}, "IF": {"close_commission_today_ratio": 9.0}}, None]
+    for (mult, min_c, tax_mult, pit, fmult), ov in zip(combos, overrides):
         out.append({"mult": mult, "min_c": min_c, "tax_mult": tax_mult, "pit": pit, "fmult": fmult, "rate": rate,
-                    "tax_before": tb, "tax_after": ta, "tax_default": td, "change": change})
+                    "tax_before": tb, "tax_after": ta, "tax_default": td, "change": change, "future_info": ov})
     return out
 
 
